@@ -18,6 +18,7 @@ Good(ev) ==
              \/ ev.op = "Promote"      /\ Promote(a.e, a.name, a.form, a.off)
              \/ ev.op = "Read"         /\ Read(a.e)
              \/ ev.op = "Overwrite"    /\ DataOK(a.data) /\ Overwrite(a.e, a.pos, Len(a.data))
+             \/ ev.op = "RWOverwrite"  /\ DataOK(a.data) /\ RWOverwrite(a.e, a.pos, Len(a.data))
              \/ ev.op = "Move"         /\ Move(a.name, a.from, a.to)
              \/ ev.op = "Plant"        /\ DataOK(a.data) /\ Plant(a.name, a.dir, Len(a.data))
              \/ ev.op = "Remove"       /\ Remove(a.name, a.dir)
